@@ -37,22 +37,24 @@ Section Step.
   (** "archives a revision only after that revision has confirmed it is paused, and only if a newer revision is
       Available or the revision itself is unavailable and controls nothing that the next newer revision contains;
       the newest revision is never archived" *)
-  Definition archive_ok_with (sl : N -> option (list pobj)) (n : N) : bool :=
+  Definition archive_ok_with (sl : N -> option (list pobj)) (known : bool) (n : N) : bool :=
     match find_dset (chain pre) n, after_name n (chain pre) with
     | Some r, Some newer =>
         is_status_paused r && negb (is_nil newer) &&
         (existsb is_available newer ||
          (negb (is_available r) &&
           match newer with
-          | nx :: _ => is_nil (inter_keys (full_objects sl nx) (os_ctrlof (ds_set r)))
+          | nx :: _ => (negb known || forallb (fun m => match sl m with Some _ => true | None => false end) (slice_refs nx)) &&
+                       is_nil (inter_keys (full_objects sl nx) (os_ctrlof (ds_set r)))
           | [] => false
           end))
     | _, _ => false
     end.
-  Definition archive_ok := archive_ok_with slices.
+  (** what the next newer revision contains is only known if every ObjectSlice it references exists *)
+  Definition archive_ok := archive_ok_with slices true.
   (** the same rule judged on the inline objects only (what the archive reconciler looks at before the repair) *)
   Definition m08_archive_inline : bool :=
-    match s with SDep _ _ => forallb (archive_ok_with (fun _ => None)) archived_names | _ => true end.
+    match s with SDep _ _ => forallb (archive_ok_with (fun _ => None) false) archived_names | _ => true end.
   Definition m08_archive : bool :=
     match s with SDep _ _ => forallb archive_ok archived_names | _ => true end.
 
@@ -187,16 +189,17 @@ Proof.
 Qed.
 
 Lemma archivable_archive_ok slices w n :
-  NoDup (map sname (dw_sets w)) -> archivable (full_objects slices) (listed false w) n -> archive_ok slices (state_of w) n = true.
+  NoDup (map sname (dw_sets w)) -> archivable (full_objects slices) (refs_known slices) (listed false w) n -> archive_ok slices (state_of w) n = true.
 Proof.
   intros Hnd (l1 & r & l2 & EL & En & Hne & Hsp & Har & Hd). unfold archive_ok, archive_ok_with. rewrite chain_listed, EL, <- En.
   pose proof (listed_nodup false w Hnd) as HndL. rewrite EL, map_app in HndL. cbn in HndL. apply NoDup_remove_2 in HndL.
   assert (Hni : ~ In (sname r) (map sname l1)) by (intros H; apply HndL; apply in_or_app; now left).
   rewrite (find_dset_split _ _ _ Hni), (after_name_split _ _ _ Hni), Hsp. cbn [andb].
   destruct l2 as [|nx l3]; [now elim Hne|]. cbn [is_nil negb andb].
-  destruct Hd as [(s & Hs & Ha & _)|(Hav & nx' & l3' & act & E & _ & Hact & Hdis)].
+  destruct Hd as [(s & Hs & Ha & _)|(Hav & nx' & l3' & act & E & _ & Hact & Hkn & Hdis)].
   - assert (existsb is_available (nx :: l3) = true) by (apply existsb_exists; exists s; auto). now rewrite H.
-  - injection E as <- <-. rewrite Hav. cbn [negb andb]. apply orb_true_iff. right.
+  - injection E as <- <-. rewrite Hav. cbn [negb andb orb]. apply orb_true_iff. right. apply andb_true_iff. split.
+    { apply forallb_forall. intros m Hm. specialize (Hkn m Hm). destruct (slices m); [reflexivity|now elim Hkn]. }
     unfold active_objects in Hact. rewrite Har in Hact. destruct (is_nil (os_ctrlof (ds_set r)) && negb (ds_ctrlset r)); [discriminate|].
     injection Hact as <-. now apply inter_keys_nil.
 Qed.
